@@ -333,7 +333,112 @@ theorem type_name_eq_runners (P : Prims) (r : Runner) (v : Val) (c : Cls) :
   show (match pyRel cmpSpecs .eq (typeFn v) (.type c) with | .ok r => _ | .error e => _) = _
   rw [this]; rfl
 
+/-- `type(…)` applied `n` times -/
+def typeIter : Nat → TExpr → TExpr
+  | 0, e => e
+  | n + 1, e => .typeOf (typeIter n e)
+
+/-- the type of a type object is `type`: `TypeType.__new__` answers `TypeType` for every class object -/
+theorem typeFn_typeFn (v : Val) : typeFn (typeFn v) = .type .type := by
+  cases v <;> rfl
+
+/-- **type-of-type chains** ("`type(e) == T` is true exactly for the matching name … type"): whatever `e` evaluates to —
+a value of any kind, `null`, or itself a type — `type(type(e))`, `type(type(type(e)))`, … all evaluate to the type
+`type`, in both runners (round 2; the class of seeded change C13-m5) -/
+theorem type_of_type (P : Prims) (r : Runner) (e : TExpr) (v : Val) (hv : evalT (ctx P r) e = .ok v) :
+    (n : Nat) → evalT (ctx P r) (typeIter (n + 2) e) = .ok (.type .type)
+  | 0 => by
+      simp only [typeIter, evalT, hv, bind, Except.bind]
+      rw [typeFn_typeFn]
+  | n + 1 => by
+      have ih := type_of_type P r e v hv n
+      show evalT (ctx P r) (.typeOf (typeIter (n + 2) e)) = _
+      simp only [evalT, ih, bind, Except.bind]
+      rfl
+
+/-- every type NAME (`int`, …, `null_type`, `type`) has type `type`: `type(null_type)`, `type(type)`, `type(int)` -/
+theorem type_name_has_type_type (P : Prims) (r : Runner) (c : Cls) :
+    evalT (ctx P r) (.typeOf (.lit (.type c))) = .ok (.type .type) := rfl
+
+/-- … and `type(type(e)) == type` (any depth ≥ 2) evaluates to `BoolType(true)` inside CEL -/
+theorem type_of_type_eq_type (P : Prims) (r : Runner) (e : TExpr) (v : Val) (hv : evalT (ctx P r) e = .ok v) (n : Nat) :
+    evalT (ctx P r) (.rel .eq (typeIter (n + 2) e) (.lit (.type .type))) = .ok (.bool true) := by
+  have h := type_of_type P r e v hv n
+  simp only [evalT, h, bind, Except.bind]
+  have : pyRel (ctx P r).S .eq (.type .type) (.type .type) = .ok true := by
+    show pyRel cmpSpecs .eq (.type .type) (.type .type) = .ok true
+    rw [(rel_spec (.type .type) (.type .type) rfl).1]; simp [eqSpec]
+  rw [this]; rfl
+
+/-! ### element types (round 2): the class of every ELEMENT of a list result -/
+
+/-- evaluating a list of expressions that all have type `τ` yields as many values, each of class `τ` -/
+theorem evalList_cls (P : Prims) (r : Runner) (τ : Cls) : (es : List TExpr) → (∀ e ∈ es, typeOfE e = some τ) →
+    (r = .C → usesHasList es = false) → (vs : List Val) → evalList (ctx P r) es = .ok vs →
+    vs.length = es.length ∧ ∀ v ∈ vs, clsOf v = τ
+  | [], _, _, vs, h => by
+      simp [evalList] at h; subst h; simp
+  | e :: es, ht, hh, vs, h => by
+      simp only [evalList] at h
+      obtain ⟨x, hx, h⟩ := bind_ok _ _ _ h
+      obtain ⟨xs, hxs, h⟩ := bind_ok _ _ _ h
+      simp at h; subst h
+      have h1 := preservation P r e τ (ht e (by simp)) (fun hc => by have := hh hc; simp [usesHasList] at this; exact this.1) x hx
+      have h2 := evalList_cls P r τ es (fun e' he' => ht e' (by simp [he'])) (fun hc => by have := hh hc; simp [usesHasList] at this; exact this.2) xs hxs
+      refine ⟨by simp [h2.1], ?_⟩
+      intro v hv
+      simp at hv
+      rcases hv with rfl | hv
+      · exact h1
+      · exact h2.2 v hv
+
+/-- a list literal whose elements all have type `τ` evaluates to a `ListType` of as many elements, EACH an instance of
+the library's class for `τ` (so indexing it hands back such an instance) -/
+theorem list_literal_elements_typed (P : Prims) (r : Runner) (τ : Cls) (es : List TExpr) (ht : ∀ e ∈ es, typeOfE e = some τ)
+    (hh : r = .C → usesHasList es = false) (v : Val) (hv : evalT (ctx P r) (.listLit es) = .ok v) :
+    ∃ vs, v = .list vs ∧ vs.length = es.length ∧ ∀ x ∈ vs, clsOf x = τ := by
+  simp only [evalT] at hv
+  obtain ⟨vs, hvs, hv⟩ := bind_ok _ _ _ hv
+  simp [ctx, wrapSpec] at hv
+  exact ⟨vs, hv.symm, evalList_cls P r τ es ht hh vs hvs⟩
+
+/-- `r.map(x, body)`: when the body has type `τ` for every element of the range, the result is a `ListType` with one
+element per element of the range, each of class `τ` -/
+theorem map_macro_elements_typed (P : Prims) (r : Runner) (τ : Cls) (elems : List Val) (bodies : List TExpr)
+    (ht : ∀ e ∈ bodies, typeOfE e = some τ) (hh : r = .C → usesHasList bodies = false) (v : Val)
+    (hv : evalT (ctx P r) (.macroList false elems bodies) = .ok v) :
+    ∃ vs, v = .list vs ∧ vs.length = bodies.length ∧ ∀ x ∈ vs, clsOf x = τ := by
+  simp only [evalT] at hv
+  simp at hv
+  obtain ⟨vs, hvs, hv⟩ := bind_ok _ _ _ hv
+  simp [ctx, wrapSpec] at hv
+  exact ⟨vs, hv.symm, evalList_cls P r τ bodies ht hh vs hvs⟩
+
+/-- `r.filter(x, body)` hands back a `ListType` whose elements are elements of the range (no element is rebuilt or
+converted, so their classes are those of the range's elements), and not more of them -/
+theorem filter_macro_elements_from_range (P : Prims) (r : Runner) (elems : List Val) (bodies : List TExpr) (v : Val)
+    (hv : evalT (ctx P r) (.macroList true elems bodies) = .ok v) :
+    ∃ kept, v = .list kept ∧ kept.length ≤ elems.length ∧ ∀ x ∈ kept, x ∈ elems := by
+  simp only [evalT] at hv
+  simp at hv
+  obtain ⟨bs, _, hv⟩ := bind_ok _ _ _ hv
+  simp [ctx, wrapSpec] at hv
+  refine ⟨_, hv.symm, ?_, ?_⟩
+  · simp only [List.length_map]
+    calc _ ≤ (elems.zip bs).length := List.length_filter_le _ _
+      _ ≤ elems.length := by simp [List.length_zip]; omega
+  · intro x hx
+    simp only [List.mem_map, List.mem_filter] at hx
+    obtain ⟨p, ⟨hp, _⟩, rfl⟩ := hx
+    exact (List.of_mem_zip (a := p.1) (b := p.2) hp).1
+
 /-! non-vacuity -/
+example : typeIter 2 (.lit .null) = .typeOf (.typeOf (.lit .null)) := rfl
+example (P : Prims) : evalT (ctx P .I) (typeIter 3 (.lit (.int 1))) = .ok (.type .type) :=
+  type_of_type P .I (.lit (.int 1)) (.int 1) rfl 1
+example (P : Prims) : ∃ vs, evalT (ctx P .C) (.listLit [.lit (.int 1), .neg (.lit (.int 2))]) = .ok (.list vs) ∧ vs.length = 2 :=
+  ⟨_, rfl, rfl⟩
+
 example : typeOfE (.bin .add (.lit (.dbl (.num 1 false))) (.bin .mul (.lit (.dbl (.num 2 false))) (.lit (.dbl (.num 3 false))))) = some .dbl := rfl
 example : typeOfE (.bin .sub (.lit (.ts 0 0)) (.lit (.ts 5 60))) = some .dur := rfl
 example : typeOfE (.cond (.rel .lt (.lit (.int 1)) (.lit (.int 2))) (.bin .add (.lit (.str [97])) (.lit (.str [98]))) (.lit (.str []))) = some .str := rfl
